@@ -123,6 +123,11 @@ func handleNoWellKnown(ctx context.Context, serverName spec.ServerName) (results
 			if target[len(target)-1] == '.' {
 				target = target[:len(target)-1]
 			}
+			if target == "" {
+				// A target of "." means that the service is decidedly not
+				// available at this domain (RFC 2782); it names no host.
+				continue
+			}
 
 			results = append(results, ResolutionResult{
 				Destination:   fmt.Sprintf("%s:%d", target, rec.Port),
@@ -131,7 +136,9 @@ func handleNoWellKnown(ctx context.Context, serverName spec.ServerName) (results
 			})
 		}
 
-		return
+		if len(results) > 0 {
+			return
+		}
 	}
 
 	// 5. If the /.well-known request returned an error response, and the SRV
